@@ -259,3 +259,35 @@ Definition xrun (early clear : bool) (ops : list xop) : xstate := fold_left (xst
 Definition x_acked (st : xstate) : list batch := x_gone st ++ concat (x_logs st) ++ x_open st.
 (* what a restart finds: the data files, overlaid with the live log replayed epoch by epoch *)
 Definition x_recovered (st : xstate) : store := over (lww (x_files st)) (lww (concat (x_logs st) ++ x_open st)).
+
+(* ---- design sketch for a repair of the replay order (NOTES.md, C01-walphase): epoch-numbered log files ---- *)
+(* Every log switch starts a new epoch number shared by all partitions and re-phases the counter; partition 0's file of the
+   epoch is created (under the exclusive lock) before the first record of the epoch is appended anywhere and is the FIRST
+   file a removal deletes; at restart an epoch whose partition-0 file is missing is ignored (its removal had begun, so it is
+   committed); live epochs are replayed one after the other, round-robin from partition 0 inside an epoch. *)
+Definition efiles := list (option (list batch)).            (* the files of one epoch, per partition; None = no such file *)
+Definition wrap_epoch (parts : list (list batch)) : efiles :=
+  match parts with
+  | [] => []
+  | p0 :: r => Some p0 :: map (fun p => match p with [] => None | _ => Some p end) r
+  end.
+Definition epoch_files (n : nat) (e : list batch) : efiles := wrap_epoch (distribute n 0 e (repeat [] n)).
+(* removal goes file by file, partition 0 first: after j steps the first j existing files are gone *)
+Fixpoint remove_files (j : nat) (ef : efiles) {struct ef} : efiles :=
+  match ef with
+  | [] => []
+  | None :: r => None :: remove_files j r
+  | Some p :: r => match j with 0 => Some p :: r | S j' => None :: remove_files j' r end
+  end.
+Definition unwrap (ef : efiles) : list (list batch) := map (fun o => match o with Some p => p | None => [] end) ef.
+Definition epoch_live (ef : efiles) : bool := match ef with Some _ :: _ => true | _ => false end.
+Definition replay_epoch_files (ef : efiles) : list batch :=
+  if epoch_live ef then replay (total (unwrap ef)) (unwrap ef) else [].
+Definition replay_disk (d : list efiles) : list batch := concat (map replay_epoch_files d).
+(* the disk of a history-machine state whose oldest live epoch has lost its first j files *)
+Definition disk (n : nat) (st : wstate) (j : nat) : list efiles :=
+  match live_epochs st with
+  | e :: r => remove_files j (epoch_files n e) :: map (epoch_files n) r
+  | [] => []
+  end.
+Definition recovered_disk (n : nat) (st : wstate) (j : nat) : store := over (lww (flushed st)) (lww (replay_disk (disk n st j))).
